@@ -451,6 +451,23 @@ def validate (env : Env) (known : List Known) (c : Cluster) : M Errs := do
   pure (e ++ validateFeatureGate env c ++ validateConflicts env c known)
 
 
+/-- `admission.Operation` (the plugin handles Create and Update) -/
+inductive Operation where
+  | create | update
+deriving Repr, DecidableEq, Inhabited
+
+/-- `upstreamclusterPlugin.Admit`: `SetDefaults_UpstreamCluster` gives every policy without strategy `RoundRobin`
+    (the rule normalisation that follows is C17's subject; rules are not part of this model). Runs before `Validate`
+    for both operations; does not read the old object. -/
+def admit (c : Cluster) : Cluster :=
+  { c with policies := c.policies.map (fun p => if p.strategy = [] then { p with strategy := sRoundRobin } else p) }
+
+/-- `upstreamclusterPlugin.Validate(ctx, attributes, o)` with the admission attributes spelled out: the operation
+    and `a.GetOldObject()`. The code reads neither (only `a.GetObject()`): an update is validated exactly like a
+    create, whatever part of the object changed. -/
+def validateAdmission (env : Env) (known : List Known) (_op : Operation) (_old : Option Cluster) (c : Cluster) : M Errs :=
+  validate env known c
+
 /-! ## Generic loops -/
 
 /-- a Go `for _, a := range l { ... }` whose body can panic / return an error and yields a value -/
